@@ -5,6 +5,7 @@
 #include <cassert>
 #include <cmath>
 #include <cstddef>
+#include <cstdint>
 #include <stdexcept>
 #include <boost/multiprecision/cpp_int.hpp>
 #include <parmcb/config.hpp>
@@ -77,6 +78,8 @@ static void prime_case(vr::Runner &R, const char *tn, long p0, bool verbose = fa
 // plus {p, p+1, -1} are compared with a dense model computed in cpp_int.
 template<class T> static std::string vecfp_str(const parmcb::SpVecFP<T> &v) { std::string s = "{"; for (auto it = v.begin(); it != v.end(); ++it) s += (s.size() > 1 ? "," : "") + std::to_string(boost::get<0>(*it)) + ":" + std::to_string((long long) boost::get<1>(*it)); return s + "}"; }
 static BigInt modp(BigInt x, const BigInt &p) { x %= p; if (x < 0) x += p; return x; }
+template<class T> static typename std::enable_if<std::is_arithmetic<T>::value, bool>::type fits_in(long v) { return v >= (long) std::numeric_limits<T>::min() && v <= (long) std::numeric_limits<T>::max(); }
+template<class T> static typename std::enable_if<!std::is_arithmetic<T>::value, bool>::type fits_in(long) { return true; }
 template<class T>
 static void vecfp_unit(vr::Runner &R, const char *tn, long p0, int ai) {
     const int D = 3; const long V[6] = {0, 1, 2, (p0 - 1) / 2, p0 - 2, p0 - 1};
@@ -104,7 +107,9 @@ static void vecfp_unit(vr::Runner &R, const char *tn, long p0, int ai) {
         if (ok) { BigInt d = modp(BigInt((long long) (a * b)), p0); if (d != wdot) { R.violation({"SpVecFP", "dot-product", cs, "a * b = " + std::to_string((long long) (a * b)) + ", dense computation gives " + wdot.str()}); ok = false; } }
         if (ok && bi < 9) {
             const long S[9] = {0, 1, 2, (p0 - 1) / 2, p0 - 2, p0 - 1, p0, p0 + 1, -1};
-            long sc = S[bi]; std::vector<BigInt> wsc(D); for (int c = 0; c < D; ++c) wsc[c] = modp(BigInt(da[c]) * sc, p0);
+            long sc = S[bi]; std::vector<BigInt> wsc(D);
+            if (!fits_in<T>(sc)) { R.crumb_done(); R.count(C_EVAL, 4); R.count(C_NONTRIV, 4); continue; }     // a scalar that T cannot hold is not an input
+            for (int c = 0; c < D; ++c) wsc[c] = modp(BigInt(da[c]) * sc, p0);
             parmcb::SpVecFP<T> m = a * (T) sc; ok = check(cs + ";scalar=" + std::to_string(sc), m, wsc, "a * scalar");
             if (ok) { parmcb::SpVecFP<T> m2 = a; m2 *= (T) sc; check(cs + ";scalar=" + std::to_string(sc), m2, wsc, "a *= scalar"); }
         }
@@ -139,7 +144,7 @@ int main(int argc, char **argv) {
         std::map<std::string, std::string> kv;
         for (auto &p : vr::split(A.get("replay-case"), ';')) { auto eq = p.find('='); if (eq != std::string::npos) kv[p.substr(0, eq)] = p.substr(eq + 1); }
         R.worker_id = 0;
-        if (kv["T"] == "int") dispatch_one<int>(R, "int", kv); else if (kv["T"] == "long") dispatch_one<long>(R, "long", kv); else dispatch_one<BigInt>(R, "cpp_int", kv);
+        if (kv["T"] == "int") dispatch_one<int>(R, "int", kv); else if (kv["T"] == "int16_t") dispatch_one<std::int16_t>(R, "int16_t", kv); else if (kv["T"] == "int8_t") dispatch_one<std::int8_t>(R, "int8_t", kv); else if (kv["T"] == "long") dispatch_one<long>(R, "long", kv); else dispatch_one<BigInt>(R, "cpp_int", kv);
         if (R.vf) fclose(R.vf);
         uint64_t nv = R.sh->nviol.load();
         std::string fn = R.viol_prefix + ".0";
@@ -168,7 +173,8 @@ int main(int argc, char **argv) {
                 if (u.type == 0) gcd_case<int>(R, tn[0], u.x, b); else if (u.type == 1) gcd_case<long>(R, tn[1], u.x, b); else gcd_case<BigInt>(R, tn[2], u.x, b); } }
         else if (u.fn == 1) { for (long a = -2 * u.x; a <= 2 * u.x; ++a) {
                 if (u.type == 0) inv_case<int>(R, tn[0], a, u.x); else if (u.type == 1) inv_case<long>(R, tn[1], a, u.x); else inv_case<BigInt>(R, tn[2], a, u.x); } }
-        else if (u.fn == 3) { if (u.type == 0) vecfp_unit<int>(R, tn[0], 46337, (int) u.x); else if (u.type == 1) vecfp_unit<long>(R, tn[1], 2147483647L, (int) u.x); else vecfp_unit<BigInt>(R, tn[2], 2147483647L, (int) u.x); }
+        else if (u.fn == 3) { if (u.type == 0) { vecfp_unit<int>(R, tn[0], 46337, (int) u.x); vecfp_unit<std::int16_t>(R, "int16_t", 32749, (int) u.x); vecfp_unit<std::int8_t>(R, "int8_t", 127, (int) u.x); vecfp_unit<std::int16_t>(R, "int16_t", 181, (int) u.x); }
+            else if (u.type == 1) vecfp_unit<long>(R, tn[1], 2147483647L, (int) u.x); else vecfp_unit<BigInt>(R, tn[2], 2147483647L, (int) u.x); }
         else { for (long p = u.x; p < u.x + 2000 && p <= pl.prime_max; ++p) {
                 if (u.type == 0) prime_case<int>(R, tn[0], p); else if (u.type == 1) prime_case<long>(R, tn[1], p); else prime_case<BigInt>(R, tn[2], p); } }
     };
